@@ -24,6 +24,10 @@ def run():
     rep.extra["explanation"] = ("every entry of the three tables is one or more named obligations; ground rational identities are "
                                 "decided exactly, quantified ones (all x,y,z / all metric tensors of the crystal system / "
                                 "exists real parameters and integer lattice shift) by z3")
+    # spglib is asked about the analysed structure with the analyzer's tolerance; the simple getters are dataset look-ups (shared section)
+    from props import _sym as _symmod
+    from props._util import section as _section
+    _section(rep, "dataset", lambda: _symmod.dataset_section(rep))
     return rep
 
 
